@@ -129,9 +129,11 @@ func cmdFault(args []string) {
 	maxK := fs.Int("maxk", 400, "give up after this many positions for one target")
 	fuEvery := fs.Int("followup", 2, "follow-up write after every i-th faulted call")
 	par := fs.Int("par", 8, "parallel scenarios")
+	reopenN := fs.Int("reopen", 0, "mode one: close and reopen the store after every n-th follow-up write (what a failed call left in the handle must not reach the disk)")
 	huge := fs.Bool("huge", false, "only one target: an insert batch beyond badger's transaction size limit, faulted at every 23rd call")
 	fs.Parse(args)
 	faultHuge = *huge
+	faultReopen = *reopenN
 
 	type result struct {
 		lines [][]byte
@@ -187,6 +189,7 @@ func cmdFault(args []string) {
 }
 
 var faultHuge bool
+var faultReopen int
 
 func runFaultScenario(seed int64, be, mode string, perTarget, maxK, fuEvery int) ([][]byte, map[string]int) {
 	p := &Profile{Name: "fault", NumTable: "general", TimeTable: "general", Colls: 1, MaxDocs: 12, Indexes: true, W: weights(nil)}
@@ -264,6 +267,12 @@ func runFaultScenario(seed int64, be, mode string, perTarget, maxK, fuEvery int)
 		fuN++
 		d := AObj("_id", AStr(bulkId(fuN)), "n", AStr(fmt.Sprintf("fu%d", fuN)))
 		note(x.Step(E{"op": "Insert", "c": "fu", "docs": []interface{}{d}}, true))
+		if faultReopen > 0 && fuN%faultReopen == 0 && mode == "one" {
+			// an acknowledged write on the main collection too, then the store is closed and reopened
+			d2 := AObj("_id", AStr(bulkId(1000+fuN)), "x", g.smallNum(), "xy", g.smallNum())
+			note(x.Step(E{"op": "Insert", "c": "m", "docs": []interface{}{d2}}, true))
+			note(x.Step(E{"op": "Reopen"}, true))
+		}
 	}
 	// what the handle itself answers after a failed call (its view must be the stored one)
 	probes := []E{{"op": "ListIndexes", "c": "m"}, {"op": "Count", "c": "m", "q": []interface{}{}},
